@@ -352,11 +352,11 @@ def run(c, chk):
             for tr in model.transitions(s, tok):
                 nt += 1
                 for e in tr.events:
-                    if e.kind == 'store' and e.addr[0] != 'alloca':
+                    if e.kind == 'store' and sym.object_of(e.addr)[0] != 'alloca':
                         bad = (s, tok, e)
                     if e.kind == 'call' and e.name in ('cfg_setopt', 'cfg_addval', 'cfg_free_value', 'cfg_opt_setcomment', 'cfg_addopt',
                                                        'call_function', 'cfg_getopt'):
-                        if e.name == 'cfg_free_value' and e.args and e.args[0][0] == 'alloca':
+                        if e.name == 'cfg_free_value' and e.args and sym.object_of(e.args[0])[0] == 'alloca':
                             continue          # cleanup of a local aggregate on the error exit
                         bad = (s, tok, e)
     if bad:
